@@ -14,6 +14,7 @@ ASSIGN = [
     [0, 1, 1, 2, 0, 3, 2, 1],                           # zeros and equal operands: division by zero, ties in comparisons
     [None, -1, -0.5, None, 3, -7, 0, None],             # blanks next to negative numbers and zero: a blank counts as 0 on either side of every operator
     [0, 'v1.0', False, '', 0.0, '2.0', 0, 'x.0'],       # falsy values (as OVERRIDES of non-zero cells) and texts that end in .0
+    [None, '', 'a', None, '', 0, False, ' '],           # blanks next to the empty text, a text, zero and FALSE
 ]
 
 
@@ -87,8 +88,8 @@ def run(tier, seed):
     chk = core.Check('C01', tier, seed)
     rng = chk.rng
     chk.rule = ('every valid token sequence of the operator grammar (operands, brackets, unary + -, postfix %, + - * / &, six comparisons) up to 5 tokens (quick) / 7 (thorough) '
-                'and random chains to 25 tokens with redundant brackets and spaces, each under 6 operand assignments (distinct primes; signs and dyadic fractions; texts and '
-                'blanks; zeros and ties; blanks next to negative numbers; falsy overrides and texts ending in .0), operands from workbook cells and from overrides; value through the real translator and class vs the Lean model of the grouping + '
+                'and random chains to 25 tokens with redundant brackets and spaces, each under 7 operand assignments (distinct primes; signs and dyadic fractions; texts and '
+                'blanks; zeros and ties; blanks next to negative numbers; falsy overrides and texts ending in .0; blanks next to the empty text), operands from workbook cells and from overrides; value through the real translator and class vs the Lean model of the grouping + '
                 'evaluation and vs an independent recursive-descent reading of the same tokens (spec); numeric literals on a decimal grid vs the nearest double; malformed '
                 'operator sequences are rejected. distinct = distinct (formula, assignment)')
     chk.assumptions += ['text forms under & follow Python str() for ints; floats and booleans under & are compared with the model only where it models them (the statement fixes no text form)',
@@ -129,6 +130,7 @@ def run(tier, seed):
     # formulas sit in the column after the operands: eval_formulas puts them at column max+2; operands A1..H1 occupy row 1 only
     malformed(chk, rng)
     literals(chk, tier)
+    text_literals(chk)
     return chk.finish()
 
 
@@ -218,6 +220,27 @@ def literals(chk, tier):
         if not ok:
             chk.violation({'why': 'a numeric literal does not denote the double nearest to its decimal text', 'literal': t, 'impl': o, 'nearest': repr(want_v),
                            'stream': 'literals'})
+
+
+def text_literals(chk):
+    """text and boolean literals under & and the comparisons: a literal denotes exactly its text (inner blanks, doubled quotes, wildcards, digits)"""
+    texts = ['a', 'a  b', ' a', 'a ', 'a\tb', 'two\nlines', 'it\'s', 'q"q', '"', '""', '*"', '"*', '?"x"', 'a*"b', 'v1.0', '2.0', '007', '1e3', '', 'TRUE', 'x~*', '*', 'a?c']
+    lit = lambda t: '"' + t.replace('"', '""') + '"'
+    formulas, wants = [], []
+    for t in texts:
+        formulas += ['=' + lit(t), '=%s&"!"' % lit(t), '="<"&%s&">"' % lit(t), '=%s=%s' % (lit(t), lit(t)), '=%s&%s' % (lit(t), lit(t))]
+        wants += [core.enc(t), core.enc(t + '!'), core.enc('<' + t + '>'), 'T', core.enc(t + t)]
+    for a, b in (('a  b', 'a b'), ('a', 'a '), ('x', ' x'), ('*"', '*'), ('v1.0', 'v1'), ('a\tb', 'a b')):
+        formulas += ['=%s=%s' % (lit(a), lit(b)), '=%s<>%s' % (lit(a), lit(b))]
+        wants += ['F', 'T']
+    formulas += ['=TRUE&"x"', '=FALSE&"x"', '=TRUE=TRUE', '=TRUE<>FALSE', '=TRUE()&"x"']
+    wants += [core.enc('Truex'), core.enc('Falsex'), 'T', 'T', core.enc('Truex')]
+    outs = realcode.eval_formulas(formulas, {})
+    for f, o, w in zip(formulas, outs, wants):
+        chk.count('text-literal')
+        chk.seen(('text-literal', f))
+        if o != w:
+            chk.violation({'why': 'a text / boolean literal under & or a comparison does not denote exactly its text', 'formula': f, 'impl': o, 'want': w, 'stream': 'text-literals'})
 
 
 def replay(path):
